@@ -45,12 +45,23 @@ def ilist(xs):
     return ','.join(str(int(x)) for x in xs) if len(xs) else '_'
 
 
-def run_case(rng, kind, c, pos, n, rank, bshape=()):
+def run_case(rng, kind, c, pos, n, rank, bshape=(), mixed=False):
     """returns (request line, impl outcome) ; outcome = ('ok', array) | ('err', class)"""
     dims_c = DIMS[:c]
     dims_i = ([7, 6] + [2]*n)[:n] if n <= 6 else [2]*n
     ch = factors(rng, dims_c, rank, bshape)
     ins = factors(rng, dims_i, rank, bshape)
+    if mixed:
+        # broadcast axes that differ between the chain and the inserted factors (every combination
+        # of none / length one / length three broadcasts to (3,)); `mixed` is True (draw them) or
+        # the list [chain axes, axes of factor 0, ...] of a stored case
+        opts = [(), (1,), (3,)]
+        if mixed is True:
+            mixed = [opts[int(rng.integers(0, 3))] for _ in range(1 + len(dims_i))]
+        mixed = [tuple(int(x) for x in b) for b in mixed]
+        ch = factors(rng, dims_c, rank, mixed[0])
+        ins = [rng.standard_normal(b + (dd,)*rank) for b, dd in zip(mixed[1:], dims_i)]
+    run_case.last_mixed = [list(b) for b in mixed] if mixed else None
     arr = util.tensor(*ch, rank=rank)
     try:
         if kind == 'tinsert':
@@ -150,7 +161,8 @@ def correspondence(ctx, salt='corr'):
     for r, ln, o in zip(reqs, lines, outs):
         kind, c, pos, n, rank = r
         bshape = (2,) if (c + n) % 2 else ()
-        ch, ins, res = run_case(rng, kind, c, pos, n, rank, bshape)
+        mixed = kind in ('tinsert', 'tinsert_int') and n <= 4 and rng.random() < 0.35
+        ch, ins, res = run_case(rng, kind, c, pos, n, rank, bshape, mixed)
         allf = ch + ins
         nontriv = any(p < 0 for p in pos) or len(set(pos)) < len(pos)
         ctx.count(ln, nontrivial=nontriv)
@@ -174,21 +186,23 @@ def correspondence(ctx, salt='corr'):
         if exp is None:
             if res[0] != 'err':
                 ctx.fail('inadmissible_rejected', {'kind': kind, 'c': c, 'pos': list(pos), 'n': n,
-                                                   'rank': rank},
+                                                   'rank': rank, 'mixed': run_case.last_mixed},
                          'a result was returned', 'rejection', {'kind': kind},
                          f'{kind} chain={c} pos={list(pos)} n={n} rank={rank}: inadmissible '
                          f'argument accepted')
         else:
             if res[0] != 'ok':
                 ctx.fail('admissible_accepted', {'kind': kind, 'c': c, 'pos': list(pos), 'n': n,
-                                                 'rank': rank}, res[1], 'a result', {'kind': kind},
+                                                 'rank': rank, 'mixed': run_case.last_mixed},
+                         res[1], 'a result', {'kind': kind},
                          f'{kind} chain={c} pos={list(pos)} n={n} rank={rank}: admissible argument '
                          f'rejected with {res[1]}')
             else:
                 want = util.tensor(*[allf[i] for i in exp], rank=rank)
                 if want.shape != res[1].shape or not np.allclose(want, res[1], atol=1e-12):
                     ctx.fail('chain_order', {'kind': kind, 'c': c, 'pos': list(pos), 'n': n,
-                                             'rank': rank}, 'different product',
+                                             'rank': rank, 'mixed': run_case.last_mixed},
+                             'different product',
                              {'order': exp}, {'kind': kind},
                              f'{kind} chain={c} pos={list(pos)} n={n} rank={rank}: result is not '
                              f'the product of the rearranged factor list {exp}')
@@ -260,7 +274,7 @@ def replay(ctx, check, case):
         return check_pauli_maps(ctx, case)
     rng = np.random.default_rng(0)
     kind, c, pos, n, rank = case['kind'], case['c'], case['pos'], case['n'], case['rank']
-    ch, ins, res = run_case(rng, kind, c, pos, n, rank)
+    ch, ins, res = run_case(rng, kind, c, pos, n, rank, mixed=case.get('mixed') or False)
     exp = oracle_order(kind, c, pos, n)
     if exp is None:
         if res[0] != 'err':
